@@ -95,6 +95,15 @@ def run(ctx: Ctx) -> None:
                 for k in c.keywords:
                     if k.arg and "fresh" in time_bases(fn, k.value, evp):
                         ts_attrs.add(k.arg)
+        # keys of context / metadata dict literals filled with the current time (`{"created_at": self.now}`) and `d["k"] = <now>` stores
+        for d_ in [x for x in walk_scope(fn.node, include_root=False) if isinstance(x, ast.Dict)]:
+            for k_, v_ in zip(d_.keys, d_.values):
+                if isinstance(k_, ast.Constant) and isinstance(k_.value, str) and "fresh" in time_bases(fn, v_, evp):
+                    ts_attrs.add(k_.value)
+        for st in walk_stmts(fn.node.body):
+            if isinstance(st, ast.Assign) and isinstance(st.targets[0], ast.Subscript) and isinstance(st.targets[0].slice, ast.Constant) \
+                    and isinstance(st.targets[0].slice.value, str) and "fresh" in time_bases(fn, st.value, evp):
+                ts_attrs.add(st.targets[0].slice.value)
     ts_attrs -= {"time", "now"}
     ctx.stats["timestamp_attributes"] = len(ts_attrs)
     need(len(ts_attrs) >= 20, f"C07-5: only {len(ts_attrs)} timestamp-holding attributes recognised")
